@@ -33,6 +33,10 @@ class Case:
                          " ".join(str(cf[k]) for k in ("coarse_enough", "direct_coarse", "max_levels", "npre", "npost", "ncycle", "pre_cycles")),
                          " ".join(self.cprm[k] for k in ("eps_strong", "relax", "over_interp", "do_trunc", "eps_trunc")),
                          self.damping, fmt_crs(self.n, self.n, self.rows), self.script_tokens()])
+    def default_damping(self):
+        """the params() default of the relaxation: damped_jacobi::params damping(0.72) (the double 0.72,
+        converted exactly); ilu0::params damping(1); the other smoothers have no damping"""
+        return fmt_q(F(0.72)) if self.relax == "damped_jacobi" else "1"
     def scale(self):
         if self.coarsening != "aggregation": return "-"
         oi = self.cprm["over_interp"]
@@ -50,7 +54,7 @@ class Case:
             else: tstoks += ["1", fmt_crs(*t[0]), fmt_crs(*t[1])]
         return " ".join([self.cid, "amgm", self.relax,
                          " ".join(str(cf[k]) for k in ("coarse_enough", "direct_coarse", "max_levels", "npre", "npost", "ncycle", "pre_cycles")),
-                         (fmt_q(F(0.72)) if self.damping == "-" else self.damping), self.scale(), fmt_crs(self.n, self.n, self.rows), " ".join(tstoks), self.script_tokens()])
+                         self.default_damping() if self.damping == "-" else self.damping, self.scale(), fmt_crs(self.n, self.n, self.rows), " ".join(tstoks), self.script_tokens()])
 
 def parse_dump(seg):
     """'D n M {A} {P} {R} ... L {A} | S {A}|-' -> list of (kind, A, P, R)"""
